@@ -70,7 +70,16 @@ def coq_make(targets=(), timeout=1500):
     try:
         rc, o = sh('coq_makefile -f _CoqProject %s -o %s' % (' '.join(files), mk), cwd=COQ)
         if rc != 0: return rc, o
-        return sh('timeout %d make -f %s -k -j%d %s' % (timeout, mk, NPROC, ' '.join(targets)), cwd=COQ, timeout=timeout + 60)
+        rc, o = sh('timeout %d make -f %s -k -j%d %s' % (timeout, mk, NPROC, ' '.join(targets)), cwd=COQ, timeout=timeout + 60)
+        if rc != 0:
+            for m in re.finditer(r'\*\*\* \[[^\]]*?:\s*(\S+\.vo)\] Error', o): FAILED_VO.add(m.group(1))
+            if rc == 124:      # the make timed out: every requested target that is still missing or stale counts as failed
+                for t in targets:
+                    if t.endswith('.vo') and not os.path.exists(os.path.join(COQ, t)): FAILED_VO.add(t)
+            for t in targets:      # a target that exists but is older than its source did not get rebuilt
+                v = os.path.join(COQ, t[:-1]) if t.endswith('.vo') else None
+                if v and os.path.exists(v) and (not os.path.exists(os.path.join(COQ, t)) or os.path.getmtime(os.path.join(COQ, t)) < os.path.getmtime(v)): FAILED_VO.add(t)
+        return rc, o
     finally:
         for f in (mk, mk + '.conf', '.' + mk + '.d'):
             try: os.remove(os.path.join(COQ, f))
@@ -163,9 +172,17 @@ def finding_for(prop, case_line):
     return None
 
 # ---------------------------------------------------------------- coq property files
+FAILED_VO = set()      # .vo targets whose build failed earlier in this process (their dependents are not retried)
+
 def coq_property(prop):
     """compile Properties_<id>.v (always recompiled: its Print Assumptions output is evidence).
        returns dict(ok, theorems, assumptions, log)"""
+    if FAILED_VO:
+        text = open(os.path.join(COQ, 'Properties_%s.v' % prop)).read()
+        theorems = re.findall(r'^\s*(?:Theorem|Corollary)\s+([A-Za-z0-9_\']+)', text, re.M)
+        dep = [v for v in FAILED_VO if re.search(r'\b' + re.escape(os.path.basename(v)[:-3]) + r'\b', text)]
+        if dep:
+            return dict(ok=False, theorems=theorems, assumptions=[], closed=0, log='not rebuilt: it imports %s, which failed to build earlier in this run' % ', '.join(sorted(dep)))
     rc, o = coq_make(['Properties_%s.vo' % prop])   # brings dependencies up to date
     src = os.path.join(COQ, 'Properties_%s.v' % prop)
     text = open(src).read()
